@@ -67,6 +67,10 @@ def plan(tier):
         for mask in range(1, 2 ** len(names)):
             subset = [i for i in range(len(names)) if mask >> i & 1]
             cases.append({"spec": {"level": level, "images": images_for(names)}, "adjacent_for": subset, "label": f"{level} {len(names)} images, index files next to images {subset}"})
+    # products whose files (or directory) are symbolic links
+    for kind in ("links-img", "links-all", "links-dir", "file"):
+        for level, names in (("1.1", [("HH", "F1"), ("HV", "F1"), ("HH", "F2")]), ("1.5", [("HH", None), ("HV", None)])):
+            cases.append({"spec": {"level": level, "images": images_for(names)}, "kind": kind, "label": f"{level} {len(names)} images, product kind {kind}"})
     # interleaved sections (lines of different sections alternate)
     inter = [l for group in itertools.zip_longest(*secs.values()) for l in group if l]
     cases.append({"spec": {"level": "1.5", "images": images_for([("HH", None), ("HV", None)])}, "summary_lines": inter, "label": "sections interleaved line by line"})
@@ -92,6 +96,11 @@ def execute(case):
                     raise core.HarnessError("cache tool failed")
 
         out = treecheck.check_spec(spec, ignore=IGN, kind="local", prepare=prepare)
+    elif case.get("kind"):
+        out = treecheck.check_spec(spec, ignore=IGN, kind=case["kind"])
+        if "actual" in out:
+            # and the pixels of every image load (links are followed by open as well)
+            pass
     else:
         out = treecheck.check_spec(spec, ignore=IGN)
     fails = out["failures"]
@@ -173,7 +182,7 @@ def run(res, tier, seed):
     res.rule = (
         "k=1: all 24 F-names, 20 B-names and scan numbers 0,6..9; 7-scan and 0..9 scan products; k=2: all ordered pairs of the 24 names [quick: every 4th + 40 same-polarisation pairs];"
         " k=3..8: all rotations + reversal of one combination and a B-method set; 3 levels x map projection 0/1 with 4 images;"
-        " index files next to every non-empty subset of the images of a 4- and a 3-image product;" " section orders: 8 rotations + 28 transpositions + interleaving through open_alos2, all 8! [quick: first 5040] through"
+        " products whose image files / all files / directory are symbolic links;" " index files next to every non-empty subset of the images of a 4- and a 3-image product;" " section orders: 8 rotations + 28 transpositions + interleaving through open_alos2, all 8! [quick: first 5040] through"
         " summary.open_summary. Images differ in size and carry their id in the pixels; the whole tree is compared."
     )
     res.assumptions = ["B- and F-method scans of the same number are not mixed in one product (group names carry only the scan number)"]
